@@ -126,6 +126,8 @@ func checkC05(p *Prog, r *Report) {
 		r.Pass("R4", "registrations|payload-types", "", fmt.Sprintf("%d registered functions: the payload type equals the type of the command element tagged with the function", nReg))
 	}
 	r.Floor("R4", "registered functions", nReg, 120)
+	// ... and the function under which the store is selected is the one of the value handed to it
+	cmdDataSameField(p, r, "R4")
 
 	w := RunWireNil(p, root, tagsOK)
 	r.Stat("functions in the synchronous inbound call tree", len(w.reach))
@@ -441,6 +443,7 @@ func c05KeepNodeManagement(p *Prog, w *WireNil, r *Report) {
 				nWipe++
 				recv := callRecv(&c.Call)
 				restored := false
+				wipeDetail := ""
 				forEachCall(fn, func(s2 ssa.CallInstruction) {
 					a, ok := s2.(*ssa.Call)
 					if !ok || !calleeIsIfaceMethod(&a.Call, eri, "AddFeature") || callRecv(&a.Call) != recv {
@@ -450,17 +453,35 @@ func c05KeepNodeManagement(p *Prog, w *WireNil, r *Report) {
 						return
 					}
 					// the added feature is built with the constant type NodeManagement
+					isNM := false
 					for _, src := range p.Sources(callArgs(&a.Call)[0], false) {
 						if nc, ok := src.Val.(*ssa.Call); ok {
 							for _, arg := range nc.Call.Args {
 								if s, isS := constString(arg); isS && s == "NodeManagement" {
-									restored = true
+									isNM = true
 								}
 							}
 						}
 					}
+					if !isNM {
+						return
+					}
+					// ... and whether it is added is decided by the address every message of the peer is resolved with:
+					// a "missing" test by another key (type and role) is satisfied by a NodeManagement feature announced
+					// under another feature number, and the address [0]:0 stays unresolvable
+					for _, g := range Guards(a.Block()) {
+						x, _, isNil := nilTest(g.Cond)
+						if !isNil {
+							continue
+						}
+						if lc, isCall := unwrapIface(x).(*ssa.Call); isCall && lc.Call.IsInvoke() && lc.Call.Method.Name() != "FeatureOfAddress" && implementsIface(lc.Call.Value.Type(), eri) {
+							wipeDetail = "the restoration is decided by " + lc.Call.Method.Name() + ", not by a look-up of the feature address"
+							return
+						}
+					}
+					restored = true
 				})
-				r.Check("R7", key, restored, p.InstrPos(c), "after the wipe a feature of the constant type NodeManagement is added to the same entity again (for the device-information entity, when the announcement omits it): "+fmt.Sprint(restored))
+				r.Check("R7", key, restored, p.InstrPos(c), "after the wipe a feature of the constant type NodeManagement is added to the same entity again (for the device-information entity, when the announcement omits it): "+fmt.Sprint(restored)+" "+wipeDetail)
 			}
 		})
 	}
